@@ -14,9 +14,11 @@ def alt_witnesses(r, d):
         w = gen.gen_witness(r, nin, [0, 1, 75, 253])
         if w not in (None, "noentries"):
             alts.append(w)
-    alts.append([[b""]] + [[] for _ in range(nin - 1)])
-    alts.append([[] for _ in range(nin - 1)] + [[b"\x00"]])
-    return alts
+    if nin:
+        alts.append([[b""]] + [[] for _ in range(nin - 1)])
+        alts.append([[] for _ in range(nin - 1)] + [[b"\x00"]])
+        alts.append([[b"", b""]] + [[] for _ in range(nin - 1)])          # items that are all empty byte strings still are items
+    return [w for w in alts if w in (None, "noentries") or len(w) <= nin]
 
 
 def hash_classes(vals):
@@ -29,7 +31,8 @@ def drive(tier):
     r = vlib.rng("c02")
     n = 150 if tier == "quick" else 2500
     for t in range(n):
-        d = gen.gen_tx(r, lens=[0, 1, 75, 76, 252, 253, 300]) if t > 10 else gen.gen_tx(r, nin=1 + t % 3, nout=t % 3)
+        # the first sixteen: every shape 0..3 inputs x 0..3 outputs (outputs-only and inputs-only transactions included)
+        d = gen.gen_tx(r, lens=[0, 1, 75, 76, 252, 253, 300]) if t >= 16 else gen.gen_tx(r, nin=t % 4, nout=t // 4)
         if len(d["vin"]) > 10 or len(d["vout"]) > 10:
             continue
         fam = []
@@ -37,8 +40,9 @@ def drive(tier):
         for w in alt_witnesses(r, d):
             dd = copy.copy(d)
             dd["wit"] = w
-            for mut in (False, True):
-                k, o = call(gen.build_tx, dd, mut)
+            for mut in (False, True, "alt"):
+                k, o = call(gen.build_tx, dd, mut is True, mut == "alt")     # third form: other container types for the same value
+                mut = mut is True
                 if k == "exc":
                     continue
                 fam.append(gen.tx_json(dd))
